@@ -100,4 +100,25 @@ example : GoodRoot [47, 114] ∧ GoodRoot [47] :=
   ⟨⟨[47], [[114]], by simp [sep], by simp [Plain, sep, dot], by simp [joinSlash]⟩,
    ⟨[47], [], by simp [sep], by simp, by simp [joinSlash]⟩⟩
 
+/-- `fullpath` is idempotent: the root the tools compute is a fixed point of the normalisation, so
+handing it to `fullpath` / `relpath` again (as `recwalk` and `os.path.relpath` do internally) changes
+nothing -/
+theorem PATH_abspath_idempotent (cwd cwd' p : Bytes) (hc : GoodRoot cwd) :
+    abspath cwd' (abspath cwd p) = abspath cwd p := by
+  obtain ⟨pre, comps, hpre, hplain, h⟩ := PATH_abspath_good cwd p hc
+  rw [h]
+  exact abspath_good_id cwd' pre comps hpre hplain
+
+/-- a normalised absolute path is its own normal form -/
+theorem PATH_normpath_good (r : Bytes) (hr : GoodRoot r) : normpath r = r := by
+  obtain ⟨pre, comps, hpre, hplain, rfl⟩ := hr
+  exact normpath_good pre comps hpre hplain
+
+/-- the relative path of the root to itself is "." and of a walked file never starts with ".." -/
+theorem PATH_relpath_root_self (cwd r : Bytes) (hr : GoodRoot r) : relpath cwd r r = some [dot] := by
+  obtain ⟨pre, comps, hpre, hplain, rfl⟩ := hr
+  have h := relpath_good cwd pre comps [] hpre hplain (by intro c hc; simp at hc)
+  rw [List.append_nil, if_pos rfl] at h
+  exact h
+
 end Pff.Path
